@@ -203,3 +203,12 @@ def run(res, facts, tier):
 
     c12_merge.r5_merge(res, facts)
     res.assume('C12: the search strategies inside addNodeInDocOrder (binary search by index, linear search by predicate) and the index numbering of a source tree are behavioural and not decided; R5 decides which nodes may bypass them')
+
+
+_run_c12_5 = run
+
+
+def run(res, facts, tier):
+    _run_c12_5(res, facts, tier)
+    from . import c12_insert
+    c12_insert.run_rule(res, facts, tier)
